@@ -30,7 +30,6 @@ class TomResult:
         self.stats: dict = {}
 
 
-_CACHE: dict[int, TomResult] = {}
 
 
 def _reachable_ws(world, fr, val):
@@ -44,8 +43,9 @@ def _reachable_ws(world, fr, val):
 
 
 def run_tom(repo: Repo) -> TomResult:
-    if id(repo) in _CACHE:
-        return _CACHE[id(repo)]
+    cached = getattr(repo, "_odfsa_tom", None)
+    if cached is not None:
+        return cached
     res = TomResult()
     seen = set()
 
@@ -137,5 +137,5 @@ def run_tom(repo: Repo) -> TomResult:
                        f"{sorted(STAMPS[bad[0].cls] - set(bad[0].stamps))} on some path")
     res.stats = {k: (sorted(v) if isinstance(v, set) else v) for k, v in tom.stats.items()}
     res.stats["default_flag_runs"] = tom2.stats["methods"]
-    _CACHE[id(repo)] = res
+    repo._odfsa_tom = res  # type: ignore[attr-defined]
     return res
